@@ -25,7 +25,7 @@
    (Section Div); the C08 theorems only use their specification "the result is congruent / is the remainder"
    as Section hypotheses. *)
 From Coq Require Import ZArith Bool List.
-From TF Require Import Word BFieldGen BField XField FieldOps PolyGen PolyCore.
+From TF Require Import Word BFieldGen BField XField FieldOps PolyGen PolyCore Ntt.
 Import ListNotations.
 Open Scope Z_scope.
 
@@ -275,6 +275,7 @@ Section Interp.
               | None => None
               | Some ir2 => pint_reduce_long_division ir2 m
               end
+          end
       end.
 
   (* pub fn reduce(&self, modulus) *)
@@ -357,11 +358,11 @@ Section Interp.
         | O => None
         | S f =>
             match rev nodes with
-            | right :: left :: rest_rev =>
-                if pint_is_padding left then pint_tree_loop f (ZPadding :: rev rest_rev)
-                else match mult (pint_tree_zerofier left) (pint_tree_zerofier right) with
+            | rgt :: lft :: rest_rev =>
+                if pint_is_padding lft then pint_tree_loop f (ZPadding :: rev rest_rev)
+                else match mult (pint_tree_zerofier lft) (pint_tree_zerofier rgt) with
                      | None => None
-                     | Some z => pint_tree_loop f (ZBranch z left right :: rev rest_rev)
+                     | Some z => pint_tree_loop f (ZBranch z lft rgt :: rev rest_rev)
                      end
             | _ => None
             end
@@ -469,7 +470,7 @@ Section Interp.
              | _ =>
                  match idx z n, idx z (n - 1) with
                  | Some zn, Some _ =>
-                     pint_lag_loop domain zn (rev (take (n - 2) (drop 1 z)) ++ []) 0 values (zrepeat (fzero o) n)
+                     pint_lag_loop domain zn (rev (take (n - 1) (drop 1 z))) 0 values (zrepeat (fzero o) n)
                  | _, _ => None
                  end
              end
@@ -769,7 +770,7 @@ Section Interp.
   (* pub fn fast_modular_coset_interpolate_with_zerofiers_and_ntt_friendly_multiple (and, through the recursion,
      fn fast_modular_coset_interpolate).  thrL / thrI = the two regime thresholds (PolyGen constants in the
      instances below; parameters so that the even/odd recursion can be exercised at small sizes). *)
-  Fixpoint pint_fmci_go (thrL thrI : Z) (fuel : nat) (values : list F) (offset : Z) (modulus : list F)
+  Fixpoint pint_fmci_go (dbg : bool) (thrL thrI : Z) (fuel : nat) (values : list F) (offset : Z) (modulus : list F)
            (pre : pint_preproc) : option (list F) :=
     if degree modulus <? 0 then None
     else
@@ -778,7 +779,7 @@ Section Interp.
       | None => None
       | Some omega =>
           if n <? thrL then
-            match pint_lagrange_interpolate false (pint_scan_mul (length values) (pint_lift offset) omega) values with
+            match pint_lagrange_interpolate dbg (pint_scan_mul (length values) (pint_lift offset) omega) values with
             | None => None
             | Some ip => pint_reduce ip modulus
             end
@@ -802,7 +803,7 @@ Section Interp.
                     let sub vals off :=
                       match pint_fmci_preprocess (zlen vals) off modulus with
                       | None => None
-                      | Some pre' => pint_fmci_go thrL thrI f vals off modulus pre'
+                      | Some pre' => pint_fmci_go dbg thrL thrI f vals off modulus pre'
                       end in
                     match sub et offset with
                     | None => None
@@ -824,17 +825,17 @@ Section Interp.
                 end
             end
       end.
-  Definition pint_fmci_with_thresholds (thrL thrI : Z) (values : list F) (offset : Z) (modulus : list F)
+  Definition pint_fmci_with_thresholds (dbg : bool) (thrL thrI : Z) (values : list F) (offset : Z) (modulus : list F)
              (pre : pint_preproc) : option (list F) :=
-    pint_fmci_go thrL thrI 64 values offset modulus pre.
-  Definition pint_fmci_with_zerofiers_and_ntt_friendly_multiple :=
-    pint_fmci_with_thresholds FAST_MODULAR_COSET_INTERPOLATE_CUTOFF_THRESHOLD_PREFER_LAGRANGE
+    pint_fmci_go dbg thrL thrI 64 values offset modulus pre.
+  Definition pint_fmci_with_zerofiers_and_ntt_friendly_multiple (dbg : bool) :=
+    pint_fmci_with_thresholds dbg FAST_MODULAR_COSET_INTERPOLATE_CUTOFF_THRESHOLD_PREFER_LAGRANGE
                               FAST_MODULAR_COSET_INTERPOLATE_CUTOFF_THRESHOLD_PREFER_INTT.
   (* fn fast_modular_coset_interpolate(values, offset, modulus) *)
-  Definition pint_fast_modular_coset_interpolate (values : list F) (offset : Z) (modulus : list F) : option (list F) :=
+  Definition pint_fast_modular_coset_interpolate (dbg : bool) (values : list F) (offset : Z) (modulus : list F) : option (list F) :=
     match pint_fmci_preprocess (zlen values) offset modulus with
     | None => None
-    | Some pre => pint_fmci_with_zerofiers_and_ntt_friendly_multiple values offset modulus pre
+    | Some pre => pint_fmci_with_zerofiers_and_ntt_friendly_multiple dbg values offset modulus pre
     end.
 
   (* ---------------------------------------------------------------- coset extrapolation *)
@@ -851,18 +852,18 @@ Section Interp.
     | Some ip => pint_batch_evaluate ip points
     end.
   (* fn fast_coset_extrapolate *)
-  Definition pint_fast_coset_extrapolate (offset : Z) (codeword points : list F) : option (list F) :=
+  Definition pint_fast_coset_extrapolate (dbg : bool) (offset : Z) (codeword points : list F) : option (list F) :=
     match pint_tree_new_from_domain points with
     | None => None
     | Some t =>
-        match pint_fast_modular_coset_interpolate codeword offset (pint_tree_zerofier t) with
+        match pint_fast_modular_coset_interpolate dbg codeword offset (pint_tree_zerofier t) with
         | None => None
         | Some mi => pint_dac_batch_evaluate mi t
         end
     end.
   (* pub fn coset_extrapolate *)
-  Definition pint_coset_extrapolate (offset : Z) (codeword points : list F) : option (list F) :=
-    if zlen points <? FAST_COSET_EXTRAPOLATE_THRESHOLD then pint_fast_coset_extrapolate offset codeword points
+  Definition pint_coset_extrapolate (dbg : bool) (offset : Z) (codeword points : list F) : option (list F) :=
+    if zlen points <? FAST_COSET_EXTRAPOLATE_THRESHOLD then pint_fast_coset_extrapolate dbg offset codeword points
     else pint_naive_coset_extrapolate offset codeword points.
 
   (* (0..codewords.len() / n).flat_map(|i| f(&codewords[i*n..(i+1)*n])) ; None for n = 0 (division by zero) *)
@@ -873,7 +874,7 @@ Section Interp.
     match map_opt f cs with None => None | Some rs => Some (concat rs) end.
 
   (* fn batch_fast_coset_extrapolate (and its par_ twin: into_par_iter().flat_map = flat_map) *)
-  Definition pint_batch_fast_coset_extrapolate (offset : Z) (n : Z) (codewords points : list F) : option (list F) :=
+  Definition pint_batch_fast_coset_extrapolate (dbg : bool) (offset : Z) (n : Z) (codewords points : list F) : option (list F) :=
     match pint_tree_new_from_domain points with
     | None => None
     | Some t =>
@@ -885,7 +886,7 @@ Section Interp.
             | None => None
             | Some cs =>
                 pint_flat_map_opt
-                  (fun cw => match pint_fmci_with_zerofiers_and_ntt_friendly_multiple cw offset modulus pre with
+                  (fun cw => match pint_fmci_with_zerofiers_and_ntt_friendly_multiple dbg cw offset modulus pre with
                              | None => None
                              | Some mi => pint_dac_batch_evaluate mi t
                              end) cs
@@ -916,11 +917,11 @@ Section Interp.
         end
     end.
   (* pub fn batch_coset_extrapolate / pub fn par_batch_coset_extrapolate *)
-  Definition pint_batch_coset_extrapolate (offset : Z) (n : Z) (codewords points : list F) : option (list F) :=
-    if zlen points <? FAST_COSET_EXTRAPOLATE_THRESHOLD then pint_batch_fast_coset_extrapolate offset n codewords points
+  Definition pint_batch_coset_extrapolate (dbg : bool) (offset : Z) (n : Z) (codewords points : list F) : option (list F) :=
+    if zlen points <? FAST_COSET_EXTRAPOLATE_THRESHOLD then pint_batch_fast_coset_extrapolate dbg offset n codewords points
     else pint_batch_naive_coset_extrapolate offset n codewords points.
-  Definition pint_par_batch_coset_extrapolate (offset : Z) (n : Z) (codewords points : list F) : option (list F) :=
-    pint_batch_coset_extrapolate offset n codewords points.
+  Definition pint_par_batch_coset_extrapolate (dbg : bool) (offset : Z) (n : Z) (codewords points : list F) : option (list F) :=
+    pint_batch_coset_extrapolate dbg offset n codewords points.
 
   (* ================================================================ barycentric_evaluate (one field: Ind = Coeff = Eval = F) *)
   Fixpoint pint_scan_bfe (n : nat) (acc g : Z) : list Z :=
